@@ -522,6 +522,15 @@ example : Conc.Safe false (Conc.rotated [.write ⟨0, asc "a\n"⟩, .write ⟨1,
 /-- eviction: at capacity 1000 the id that entered first is the one forgotten (small instance of the shape) -/
 example : cachePut [(asc "a", 1), (asc "b", 2)] (asc "b") 9 = [(asc "a", 1), (asc "b", 9)] := by decide
 
+/-- hypotheses of `lines_in_order` / `foreign_files_untouched` on a reachable state: the open file exists,
+    and a foreign look-alike survives a cycle that prunes an own file -/
+example : (dirGet st0.dir (asc "whatap-boot-20240310.log")).isSome = true := by decide +kernel
+example : (asc "whatapx-boot-20240101.log", (⟨[120], []⟩ : File)) ∈ (run cal0 st0 [.proc (t0 + 86400000)]).dir := by
+  decide +kernel
+example : removedBy cal0 st0 [.proc (t0 + 86400000)] = [asc "whatap-boot-20240101.log"] := by decide +kernel
+/-- Go's truncating day unit before 2000-01-01 (the model no longer uses floor division there) -/
+example : unit (baseTime - 1) = 0 ∧ unit (baseTime - 86400000) = -1 ∧ unit (baseTime + 86399999) = 0 := by decide
+
 end Examples
 
 end C17
